@@ -1,1 +1,2 @@
 pub mod cfgstate;
+pub mod c04;
